@@ -370,7 +370,23 @@ func errBranchFacts(s *src, f *facts) {
 				return true
 			}
 			c := s.str(i.Cond)
-			if c != "err != nil" {
+			if c == "!ok" {
+				// only the guards of a type assertion to context.Context ("first argument must be a context")
+				isCtxGuard := false
+				ast.Inspect(file, func(y ast.Node) bool {
+					if blk, ok := y.(*ast.BlockStmt); ok {
+						for k, st := range blk.List {
+							if st == ast.Stmt(i) && k > 0 && strings.Contains(s.str(blk.List[k-1]), ".(context.Context)") {
+								isCtxGuard = true
+							}
+						}
+					}
+					return !isCtxGuard
+				})
+				if !isCtxGuard {
+					return true
+				}
+			} else if c != "err != nil" {
 				return true
 			}
 			n++
@@ -462,13 +478,32 @@ func recoverFacts(s *src, f *facts) {
 			}
 			blocks++
 			var stmts []string
+			var own []ast.Stmt
 			for _, st := range i.Body.List {
+				if blk, isBlk := st.(*ast.BlockStmt); isBlk && blk.Lbrace == token.Pos(1) {
+					continue // the pre-pass's copy of a helper body behind a helper call: the call itself is judged below
+				}
+				own = append(own, st)
 				stmts = append(stmts, norm(st))
 			}
 			got := strings.Join(stmts, " ;; ")
 			a := "var ok bool ;; err, ok = e.(error) ;; if !ok { err = utils.ErrPanickedWithNonErrorValue } ;; setErr(err)"
 			b := "err, ok := e.(error) ;; if !ok { err = utils.ErrPanickedWithNonErrorValue } ;; setErr(err)"
-			if got != a && got != b {
+			// third form: the conversion lives in a package-level helper, `err = H(e)` / `err := H(e)` then the same
+			// unconditional `setErr(err)`; H's body must BE the canonical conversion (panicConversionHelper)
+			viaHelper := false
+			if len(own) == 2 && stmts[1] == "setErr(err)" {
+				if as, isAs := own[0].(*ast.AssignStmt); isAs && len(as.Lhs) == 1 && len(as.Rhs) == 1 && norm(as.Lhs[0]) == "err" &&
+					(as.Tok == token.ASSIGN || as.Tok == token.DEFINE) {
+					if c, isCall := as.Rhs[0].(*ast.CallExpr); isCall && len(c.Args) == 1 && norm(c.Args[0]) == "e" && !c.Ellipsis.IsValid() {
+						// (a local variable of that name would shadow the package-level function)
+						if id, isID := c.Fun.(*ast.Ident); isID && (id.Obj == nil || id.Obj.Kind == ast.Fun) {
+							viaHelper = panicConversionHelper(s, funcDeclInPkg(s, file.Name.Name, id.Name))
+						}
+					}
+				}
+			}
+			if got != a && got != b && !viaHelper {
 				ok = false
 				why = append(why, "recover block at "+s.pos(i)+": "+got)
 			}
@@ -494,4 +529,82 @@ func recoverFacts(s *src, f *facts) {
 		ev = strings.Join(why, " | ")
 	}
 	f.b("recoverBlocksCanonical", ok && blocks >= 3 && fixups >= 2, ev)
+}
+
+// funcDeclInPkg finds the package-level function (no receiver) `name` declared in package `pkg`.
+func funcDeclInPkg(s *src, pkg, name string) *ast.FuncDecl {
+	for _, file := range s.files {
+		if file == nil || file.Name == nil || file.Name.Name != pkg {
+			continue
+		}
+		for _, d := range file.Decls {
+			if fd, ok := d.(*ast.FuncDecl); ok && fd.Recv == nil && fd.Name != nil && fd.Name.Name == name && fd.Body != nil {
+				return fd
+			}
+		}
+	}
+	return nil
+}
+
+// panicConversionHelper: fd is `func H(p any) error` (one parameter, one unnamed result of type error, no type
+// parameters) whose body is exactly the canonical conversion of a recovered value, in one of its spellings
+// (v, k, p are whatever the helper calls them; E is utils.ErrPanickedWithNonErrorValue):
+//
+//	v, k := p.(error); if !k { v = E }; return v
+//	v, k := p.(error); if !k { return E }; return v
+//	v, k := p.(error); if k { return v }; return E
+//	if v, k := p.(error); k { return v }; return E
+//
+// Anything else — a dropped branch, another sentinel, an extra statement — is not accepted.
+func panicConversionHelper(s *src, fd *ast.FuncDecl) bool {
+	if fd == nil || fd.Body == nil || fd.Type == nil || fd.Recv != nil || fd.Type.TypeParams != nil {
+		return false
+	}
+	ps, rs := fieldIdents(fd.Type.Params), fd.Type.Results
+	if len(ps) != 1 || ps[0] == nil || rs == nil || len(rs.List) != 1 || len(rs.List[0].Names) != 0 || s.str(rs.List[0].Type) != "error" {
+		return false
+	}
+	if t := s.str(fd.Type.Params.List[0].Type); t != "any" && t != "interface{}" {
+		return false
+	}
+	const sentinel = "utils.ErrPanickedWithNonErrorValue"
+	p := ps[0].Name
+	// `v, k := p.(error)` -> (v, k)
+	assertion := func(st ast.Stmt) (string, string, bool) {
+		a, ok := st.(*ast.AssignStmt)
+		if !ok || a.Tok != token.DEFINE || len(a.Lhs) != 2 || len(a.Rhs) != 1 || s.str(a.Rhs[0]) != p+".(error)" {
+			return "", "", false
+		}
+		v, k := s.str(a.Lhs[0]), s.str(a.Lhs[1])
+		return v, k, v != "_" && k != "_" && v != k && v != p && k != p
+	}
+	// `if COND { ONLY }` without init / else -> ONLY
+	ifOnly := func(st ast.Stmt, cond string) ast.Stmt {
+		i, ok := st.(*ast.IfStmt)
+		if !ok || i.Init != nil || i.Else != nil || i.Body == nil || len(i.Body.List) != 1 || s.str(i.Cond) != cond {
+			return nil
+		}
+		return i.Body.List[0]
+	}
+	is := func(st ast.Stmt, text string) bool { return st != nil && !isNilNode(st) && s.str(st) == text }
+	l := fd.Body.List
+	switch len(l) {
+	case 3:
+		v, k, ok := assertion(l[0])
+		if !ok {
+			return false
+		}
+		if is(l[2], "return "+v) {
+			return is(ifOnly(l[1], "!"+k), v+" = "+sentinel) || is(ifOnly(l[1], "!"+k), "return "+sentinel)
+		}
+		return is(l[2], "return "+sentinel) && is(ifOnly(l[1], k), "return "+v)
+	case 2:
+		i, ok := l[0].(*ast.IfStmt)
+		if !ok || i.Init == nil || i.Else != nil || i.Body == nil || len(i.Body.List) != 1 {
+			return false
+		}
+		v, k, ok := assertion(i.Init)
+		return ok && s.str(i.Cond) == k && is(i.Body.List[0], "return "+v) && is(l[1], "return "+sentinel)
+	}
+	return false
 }
